@@ -28,7 +28,7 @@ class CFG(TTCFG[CFGState, NoneType]):
         return max(S[1][0][1] for S in self.rules) + 1
 
     def __hash__(self) -> int:
-        return hash((self.start, str(self.rules)))
+        return hash((self.start, frozenset(self.rules)))
 
     def clean(self) -> None:
         self._remove_non_productive_()
